@@ -714,7 +714,7 @@ func rawRule(c *Ctx, r *Report, rule string) {
 				continue
 			}
 			k++
-			r.check(rule, fmt.Sprintf("%s: string handed to printing helper #%d (%s) goes through the escaping writer", name, k, cal.Name()), ci.Pos(), false,
+			r.flag(rule, fmt.Sprintf("%s: string handed to printing helper #%d (%s) goes through the escaping writer", name, k, cal.Name()), ci.Pos(),
 				"a string of the value is written by "+cal.Name()+" instead of the escaping string writer: whatever layout that helper produces (a block string with indentation added, raw text) is read back verbatim by the value reader, so the round trip changes the string")
 		}
 	}
@@ -825,7 +825,7 @@ func finiteRule(c *Ctx, r *Report, rule string) {
 					if f, ok := assertFactOf(g); ok && f.holds && f.x == ssa.Value(vP) {
 						if bt, ok := f.t.Underlying().(*types.Basic); ok && bt.Info()&types.IsFloat != 0 {
 							n++
-							r.check(rule, fmt.Sprintf("%s: %s value passed through unchanged is finite", fnName(fn), typeStr(f.t)), rt.Pos(), false,
+							r.flag(rule, fmt.Sprintf("%s: %s value passed through unchanged is finite", fnName(fn), typeStr(f.t)), rt.Pos(),
 								"the arm for this float type returns its argument as is: NaN and infinities pass through")
 						}
 					}
@@ -875,8 +875,8 @@ func checkC18(c *Ctx, r *Report) {
 	for _, b := range re.Blocks {
 		for _, in := range b.Instrs {
 			bo, ok := in.(*ssa.BinOp)
-			if !ok || bo.Op != token.EQL || bo.X != firstByte {
-				continue
+			if !ok || (bo.Op != token.EQL && bo.Op != token.NEQ) || bo.X != firstByte {
+				continue // (a test for inequality singles the letter out just the same: the other branch is its arm)
 			}
 			if k, ok := bo.Y.(*ssa.Const); ok && k.Value != nil && k.Value.Kind() == constant.Int {
 				if bt, ok := bo.X.Type().Underlying().(*types.Basic); ok && bt.Kind() == types.Uint8 {
@@ -964,8 +964,29 @@ func checkC18(c *Ctx, r *Report) {
 	four := false
 	for _, l := range loopsOf(re) {
 		if ifi, ok := l.head.Instrs[len(l.head.Instrs)-1].(*ssa.If); ok {
-			if _, op, k, ok := intCmp(ifi.Cond); ok && op == token.LSS && k == 4 {
-				four = true
+			if v, op, k, ok := intCmp(ifi.Cond); ok {
+				if op == token.LSS && k == 4 {
+					four = true
+				}
+				// counting down: for i := 4; 0 < i; i--
+				if phi, isPhi := v.(*ssa.Phi); isPhi && ((op == token.GTR && k == 0) || (op == token.GEQ && k == 1)) {
+					init4, dec := false, false
+					for _, e := range phi.Edges {
+						if kc, isC := e.(*ssa.Const); isC && kc.Value != nil && kc.Value.Kind() == constant.Int && kc.Int64() == 4 {
+							init4 = true
+						}
+						if bo, isB := e.(*ssa.BinOp); isB && bo.X == ssa.Value(phi) {
+							if kc, isC := bo.Y.(*ssa.Const); isC && kc.Value != nil && kc.Value.Kind() == constant.Int {
+								if (bo.Op == token.SUB && kc.Int64() == 1) || (bo.Op == token.ADD && kc.Int64() == -1) {
+									dec = true
+								}
+							}
+						}
+					}
+					if init4 && dec {
+						four = true
+					}
+				}
 			}
 		}
 	}
@@ -1555,8 +1576,16 @@ func (c *Ctx) globalMapLit(g *ssa.Global) (map[string]constant.Value, bool) {
 						}
 						k, ok1 := info.Types[kv.Key]
 						v, ok2 := info.Types[kv.Value]
-						if !ok1 || !ok2 || k.Value == nil || v.Value == nil || k.Value.Kind() != constant.String {
+						if !ok1 || !ok2 || k.Value == nil || k.Value.Kind() != constant.String {
 							return nil, false
+						}
+						if v.Value == nil {
+							// a set: map[K]struct{}{k: {}} - the keys are what matters
+							if cl, isCL := kv.Value.(*ast.CompositeLit); !isCL || len(cl.Elts) != 0 {
+								return nil, false
+							}
+							out[constant.StringVal(k.Value)] = constant.MakeBool(true)
+							continue
 						}
 						out[constant.StringVal(k.Value)] = v.Value
 					}
@@ -1580,7 +1609,10 @@ type runeWrite struct {
 
 // useTables lets the reach sets follow guards of the form table[r] != 0.
 func useTables(c *Ctx) {
-	tableOf = func(g *ssa.Global) (map[int64]int64, bool) {
+	if c.SP == nil {
+		return
+	}
+	tableProgs.Store(c.SP.Prog, func(g *ssa.Global) (map[int64]int64, bool) {
 		ents, ok := c.globalArrayLit(g)
 		if !ok {
 			return nil, false
@@ -1594,7 +1626,7 @@ func useTables(c *Ctx) {
 			out[k] = n
 		}
 		return out, true
-	}
+	})
 }
 
 // runeWrites enumerates the Write calls in the loops of fn; an argument that is a phi (the bytes were
